@@ -78,6 +78,13 @@ pub struct Scn {
     /// the client starts reading what the server sends only after this long
     #[serde(default)]
     pub reader_delay_ms: u64,
+    /// the application's connection timeout (`with_connection_timeout`): it bounds the wait for
+    /// an HTTP request, never anything on an upgraded connection
+    #[serde(default)]
+    pub conn_timeout_ms: Option<u64>,
+    /// the client pauses this long after the handshake before its first frame
+    #[serde(default)]
+    pub idle_before_frames_ms: u64,
 }
 
 /// Payload of the k-th server-initiated message.
@@ -270,7 +277,7 @@ impl Prop for C11 {
         }
     }
     fn rule(&self) -> &'static str {
-        "One case = a client script of 1..12 frames over {text, binary, continuation, ping, pong, close} (payloads 0..70 KiB, messages fragmented 1..5 ways (sometimes with an empty first fragment or an empty continuation) with ping/pong frames interleaved and sometimes a Close in the middle of a fragmented message, arbitrary mask keys), a Sec-WebSocket-Key (printable string incl. empty and long, or absent), a delivery of the client byte stream (whole, byte-wise, cuts inside the 2-byte header / extended length / key / payload, with gaps), a handler mode (blocking recv, non-blocking recv + virtual sleep, or non-blocking for the first idle polls and blocking afterwards), echo on/off or 1..3 server-initiated messages of 10..70 000 bytes (sent after idle polls / before the first receive), optionally a slow-reading client (receive window 512..8192 bytes, reading delayed up to 1.5 s), and an ending (client Close, server returning early = drop, abrupt FIN, RST), under a seeded schedule and network knobs. Distinct = distinct (frame kinds, fragment counts, delivery class, handler mode, ending, what the server wrote); non-trivial = at least two frames and a cut inside a frame, or a control frame."
+        "One case = an App with or without a connection timeout (1 .. 5 s; the client pauses up to 3 s after the handshake, up to 100 ms between stream pieces and up to 1.5 s before reading, so pauses longer than the timeout are common) and a client script of 1..12 frames over {text, binary, continuation, ping, pong, close} (payloads 0..70 KiB, messages fragmented 1..5 ways (sometimes with an empty first fragment or an empty continuation) with ping/pong frames interleaved and sometimes a Close in the middle of a fragmented message, arbitrary mask keys), a Sec-WebSocket-Key (printable string incl. empty and long, or absent), a delivery of the client byte stream (whole, byte-wise, cuts inside the 2-byte header / extended length / key / payload, with gaps), a handler mode (blocking recv, non-blocking recv + virtual sleep, or non-blocking for the first idle polls and blocking afterwards), echo on/off or 1..3 server-initiated messages of 10..70 000 bytes (sent after idle polls / before the first receive), optionally a slow-reading client (receive window 512..8192 bytes, reading delayed up to 1.5 s), and an ending (client Close, server returning early = drop, abrupt FIN, RST), under a seeded schedule and network knobs. Distinct = distinct (frame kinds, fragment counts, delivery class, handler mode, ending, what the server wrote); non-trivial = at least two frames and a cut inside a frame, or a control frame."
     }
     fn assumptions(&self) -> Vec<String> {
         vec![
@@ -280,7 +287,7 @@ impl Prop for C11 {
         ]
     }
     fn expected_counters(&self) -> Vec<&'static str> {
-        vec!["c11.runs", "c11.no_key", "c11.nonblocking", "c11.pings", "c11.fragmented_messages", "c11.interleaved_control", "c11.close_inside_fragmented_message", "c11.empty_fragments", "c11.close_ending", "c11.server_drop_ending", "c11.abrupt_ending", "c11.cut_inside_header", "c11.large_payload", "c11.echo", "c11.server_initiated_messages", "c11.nonblocking_then_blocking", "c11.slow_reader"]
+        vec!["c11.runs", "c11.peer_pauses_longer_than_connection_timeout", "c11.no_key", "c11.nonblocking", "c11.pings", "c11.fragmented_messages", "c11.interleaved_control", "c11.close_inside_fragmented_message", "c11.empty_fragments", "c11.close_ending", "c11.server_drop_ending", "c11.abrupt_ending", "c11.cut_inside_header", "c11.large_payload", "c11.echo", "c11.server_initiated_messages", "c11.nonblocking_then_blocking", "c11.slow_reader"]
     }
     fn real_vs_stub(&self) -> (Vec<&'static str>, Vec<&'static str>) {
         (vec!["humphrey_ws::{websocket_handler, handshake, WebsocketStream::{recv, recv_nonblocking, send, Drop}, Message::from_stream(_nonblocking), Frame}", "humphrey::App (upgrade dispatch), SHA-1/Base64 of the handshake"], vec!["TCP, threads, Instant (humsim)", "client is a harness reference RFC 6455 implementation"])
@@ -371,7 +378,10 @@ impl Prop for C11 {
         let slow = (echo || !pushes.is_empty()) && rng2.chance(1, 2);
         let client_window = if slow { Some(rng2.range(512, 8192) as usize) } else { None };
         let reader_delay_ms = if slow && rng2.chance(1, 2) { rng2.range(1, 1500) } else { 0 };
-        serde_json::to_value(Scn { sim, ws_key, nonblocking, items, cuts, gap_us, echo, drop_after, ending, pushes, switch_after_idle, client_window, reader_delay_ms }).unwrap()
+        let mut rng3 = Rng::new(humsim::rng::mix(&[run_seed(seed, "C11", idx), 0xC11_0003]));
+        let conn_timeout_ms = if rng3.chance(1, 2) { Some([1000u64, 1000, 2000, 5000][rng3.usize_below(4)]) } else { None };
+        let idle_before_frames_ms = if rng3.chance(1, 3) { [100u64, 1500, 3000][rng3.usize_below(3)] } else { 0 };
+        serde_json::to_value(Scn { sim, ws_key, nonblocking, items, cuts, gap_us, echo, drop_after, ending, pushes, switch_after_idle, client_window, reader_delay_ms, conn_timeout_ms, idle_before_frames_ms }).unwrap()
     }
 
     fn execute(&self, scenario: &Value) -> RunResult {
@@ -392,7 +402,16 @@ impl Prop for C11 {
             scn.echo = false;
         }
         scn.reader_delay_ms = scn.reader_delay_ms.min(2000);
+        // (the timeout legitimately bounds the wait for the handshake request itself, which takes up
+        // to a few network latencies of at most 200 ms to arrive: never below 1 s)
+        scn.conn_timeout_ms = scn.conn_timeout_ms.map(|t| t.max(1000));
         rr.count("c11.runs", 1);
+        if let Some(t) = scn.conn_timeout_ms {
+            let longest_pause_ms = scn.idle_before_frames_ms.max(scn.gap_us / 1000).max(scn.reader_delay_ms);
+            if longest_pause_ms > t {
+                rr.count("c11.peer_pauses_longer_than_connection_timeout", 1);
+            }
+        }
         let addr: SocketAddr = "127.0.0.1:8085".parse().unwrap();
         let (frames, want_msgs, pings, has_close) = render(&scn.items);
         let slog: Arc<Mutex<Vec<SEv>>> = Arc::new(Mutex::new(Vec::new()));
@@ -401,7 +420,7 @@ impl Prop for C11 {
         let outcome = sim::run(scn.sim.to_config(), move || {
             let scn = scn2;
             let (nb, echo, da, pu, sw, sl) = (scn.nonblocking, scn.echo, scn.drop_after, scn.pushes.clone(), scn.switch_after_idle, slog2.clone());
-            let app: App<()> = App::new_with_config(2, ()).with_websocket_route("/ws", websocket_handler(move |ws: WebsocketStream, _s: Arc<()>| handler_loop(ws, nb, echo, da, pu.clone(), sw, sl.clone())));
+            let app: App<()> = App::new_with_config(2, ()).with_connection_timeout(scn.conn_timeout_ms.map(Duration::from_millis)).with_websocket_route("/ws", websocket_handler(move |ws: WebsocketStream, _s: Arc<()>| handler_loop(ws, nb, echo, da, pu.clone(), sw, sl.clone())));
             humsim::thread::spawn(move || {
                 let _ = app.run(addr);
             });
@@ -455,6 +474,9 @@ impl Prop for C11 {
                 });
                 // the whole script is sent within about 5 virtual seconds
                 let gap = scn.gap_us.min(5_000_000 / (scn.cuts.len() as u64 + 1));
+                if scn.idle_before_frames_ms > 0 {
+                    humsim::thread::sleep(Duration::from_millis(scn.idle_before_frames_ms.min(4000)));
+                }
                 send_segmented(&mut s, &stream, &scn.cuts, gap);
                 writer_done.store(true, std::sync::atomic::Ordering::SeqCst);
                 match scn.ending.as_str() {
